@@ -241,7 +241,19 @@ def pixel_data_array(spec):
     coords = {r: sc.array(dims=["obs"], values=rows[r], unit=u[r], dtype="float64") for r in ("u1", "u2", "u3", "u4")}
     for r in ("irun", "idet", "ien"):
         coords[r] = sc.array(dims=["obs"], values=rows[r], unit=None, dtype="int64")
-    return sc.DataArray(data, coords=coords), rows
+    da = sc.DataArray(data, coords=coords)
+    n = len(rows["signal"])
+    if n >= 2 and n % 3 == 0:
+        # a mask on the pixels (the format has no masks: all N pixels are written, and the ranges in the
+        # pixel metadata are those of all of them); the extreme signal and the extreme variance are masked
+        # so that a range computed 'without masked pixels' differs (seeded C13-s12)
+        m = np.zeros(n, dtype=bool)
+        for key in ("signal", "error"):
+            v = np.asarray(rows[key], dtype=float)
+            m[int(np.argmax(v))] = True
+            m[int(np.argmin(v))] = True
+        da.masks["bad"] = sc.array(dims=["obs"], values=m)
+    return da, rows
 
 
 def make_experiment(e):
